@@ -45,6 +45,14 @@ func (P *Prog) VerifyFunc(f *ssa.Function, c *Contract) *Trans {
 		if t.env.SortOf(p.Type()) == "Val" {
 			t.evalTerms = append(t.evalTerms, fmt.Sprintf("(unixNano (tval %s))", n))
 		}
+		if pt, ok := p.Type().Underlying().(*types.Pointer); ok && isStructType(pt.Elem()) {
+			stt := pt.Elem().Underlying().(*types.Struct)
+			for fi := 0; fi < stt.NumFields(); fi++ {
+				if !isStructType(stt.Field(fi).Type()) && !t.env.addrFields[t.env.fieldKey(pt.Elem(), fi)] {
+					t.evalTerms = append(t.evalTerms, fmt.Sprintf("(select %s@0 %s)", t.env.fieldComp(pt.Elem(), fi), n))
+				}
+			}
+		}
 	}
 	fr := t.newFrame(f, args, shortKey(key))
 	fr.top = true
@@ -55,7 +63,7 @@ func (P *Prog) VerifyFunc(f *ssa.Function, c *Contract) *Trans {
 		t.emit(fmt.Sprintf("(declare-const %s %s)", n, t.env.SortOf(fv.Type())))
 		fr.freeVars = append(fr.freeVars, n)
 		if _, isPtr := fv.Type().Underlying().(*types.Pointer); isPtr {
-			t.assume("true", fmt.Sprintf("(and (not (= %s null)) ((_ is obj) %s))", n, n))
+			t.assume("true", fmt.Sprintf("(and (not (= %s null)) (isobj %s))", n, n))
 		}
 		t.assume("true", t.wfOf(n, fv.Type(), st0))
 	}
@@ -74,6 +82,9 @@ func (P *Prog) VerifyFunc(f *ssa.Function, c *Contract) *Trans {
 		t.emit(fmt.Sprintf("(declare-const %s %s)", n, g.Sort.String()))
 		fr.ghosts[g.Name] = n
 		t.evalTerms = append(t.evalTerms, n)
+		if g.Sort.String() == "Val" {
+			t.evalTerms = append(t.evalTerms, fmt.Sprintf("(unixNano (tval %s))", n))
+		}
 	}
 	t.assume("true", "(>= alloc@0 0)")
 	for i, p := range f.Params {
@@ -175,6 +186,7 @@ func (t *Trans) Header() string {
        (=> ((_ is vslice) v) (and (slice_wf (lval v)) (<= (rid (sbase (lval v))) a)))
        (=> ((_ is vfunc) v) (<= (rid (fenv (nval v))) a))))
 `)
+	b.WriteString(t.env.StructDecls())
 	b.WriteString(t.P.preludeText(t.uses))
 	b.WriteString(t.env.TypeTable())
 	b.WriteString(t.env.Decls())
